@@ -54,6 +54,7 @@ type VarUse struct {
 	Unit       string
 	LocDefault bool // the position declares a default value
 	Nested     bool // the use sits inside a list or input object literal
+	OneOf      bool // the use is the single value of a oneOf input object
 }
 
 type TypedDoc struct {
@@ -141,7 +142,7 @@ func (g *docGen) variable(ty *ref.Type, locHasDefault bool, strict bool) *ref.Va
 func (g *docGen) valueOf(ty *ref.Type, depth int, locHasDefault bool) *ref.Value {
 	if g.chance("usevar", 4) {
 		val := g.variable(ty, locHasDefault, false)
-		g.out.Uses = append(g.out.Uses, VarUse{val, ty, g.unit, locHasDefault, false})
+		g.out.Uses = append(g.out.Uses, VarUse{val, ty, g.unit, locHasDefault, false, false})
 		return val
 	}
 	v := g.literal(ty, depth)
@@ -164,7 +165,7 @@ func (g *docGen) literal(ty *ref.Type, depth int) *ref.Value {
 		for i, n := 0, rapid.IntRange(0, 2).Draw(g.t, "nlist"); i < n; i++ {
 			if depth > 0 && g.chance("nestedvar", 5) {
 				val := g.variable(ty.Elem, false, false)
-				g.out.Uses = append(g.out.Uses, VarUse{val, ty.Elem, g.unit, false, true})
+				g.out.Uses = append(g.out.Uses, VarUse{val, ty.Elem, g.unit, false, true, false})
 				v.Items = append(v.Items, val)
 				continue
 			}
@@ -190,9 +191,9 @@ func (g *docGen) literal(ty *ref.Type, depth int) *ref.Value {
 			}
 			nn := *f.Type
 			nn.NonNull = true
-			if g.chance("oneofvar", 4) {
+			if g.chance("oneofvar", 3) {
 				val := g.variable(&nn, false, true)
-				g.out.Uses = append(g.out.Uses, VarUse{val, &nn, g.unit, false, true})
+				g.out.Uses = append(g.out.Uses, VarUse{val, &nn, g.unit, false, true, true})
 				v.Fields = append(v.Fields, &ref.ObjField{Name: f.Name, Value: val})
 				return v
 			}
@@ -208,7 +209,7 @@ func (g *docGen) literal(ty *ref.Type, depth int) *ref.Value {
 			}
 			if depth > 0 && g.chance("fieldvar", 5) {
 				val := g.variable(f.Type, f.Default != nil, false)
-				g.out.Uses = append(g.out.Uses, VarUse{val, f.Type, g.unit, f.Default != nil, true})
+				g.out.Uses = append(g.out.Uses, VarUse{val, f.Type, g.unit, f.Default != nil, true, false})
 				v.Fields = append(v.Fields, &ref.ObjField{Name: f.Name, Value: val})
 				continue
 			}
